@@ -130,6 +130,13 @@ def corpus():
         {'target': 'a', 'spec': ['Switch', [[['MExpr', ['M'], '>', ['Lit', 5]], ['Str', 'zz__missing']]], ['Lit', 'dflt']]},
         {'target': 10, 'spec': ['Or', [['Switch', [[['MExpr', ['M'], '>', ['Lit', 5]], ['Str', 'zz__missing']]], ['Lit', 'dflt']], ['Val', 'or-branch']], None, 'ctor']},
         {'target': 'a', 'spec': ['MExpr', ['M'], '>', ['Lit', 5]]},
+        # ~ on an == / != comparison whose M(T[..]) operand cannot be read: the comparison fails (not a pass), so its negation
+        # passes and yields the target — ~(M == c) is not "M != c"
+        {'target': {'k': 'dict', 'od': False, 'id': 3, 'items': []}, 'spec': ['Not', ['MExpr', ['MSub', ['T', 'T', [['[', ['Str', 'n']]]]], '=', ['Lit', 1]], 'op']},
+        {'target': {'k': 'dict', 'od': False, 'id': 3, 'items': []}, 'spec': ['Not', ['MExpr', ['MSub', ['T', 'T', [['[', ['Str', 'n']]]]], '!', ['Lit', 1]], 'op']},
+        {'target': {'k': 'dict', 'od': False, 'id': 3, 'items': []}, 'spec': ['Not', ['MExpr', ['M'], '=', ['MSub', ['T', 'T', [['[', ['Str', 'n']]]]]], 'op']},
+        {'target': 0, 'spec': ['Or', [['Not', ['MExpr', ['MSub', ['T', 'T', [['.', ['Str', 'n']]]]], '=', ['Lit', 1]], 'op'], ['M']], None, 'ctor']},
+        {'target': {'k': 'dict', 'od': False, 'id': 3, 'items': []}, 'spec': ['And', [['Not', ['MExpr', ['MSub', ['T', 'T', [['[', ['Str', 'n']]]]], '=', ['Lit', 1]], 'op'], ['Match', ['Type', 'dict'], None]], None, 'op']},
         {'target': 4, 'spec': ['Check', None, ['int'], [], [['even']], [], None]},
         {'target': 5, 'spec': ['Check', None, [], [], [['even']], [], ['Lit', 'dflt']]},
         # one_of ALONE (no type, instance_of or validate): membership is the whole condition, falsy members included
